@@ -93,6 +93,42 @@ func mutate(t *rapid.T, data []byte) ([]byte, string) {
 	}
 }
 
+// declareFewerFields rewrites the "fields" line of an encoded table profile so that it lists only
+// the first k names.
+func declareFewerFields(p []byte, k int) ([]byte, bool) {
+	marker := []byte("\nfields ")
+	i := bytes.Index(p, marker)
+	if i < 0 {
+		return nil, false
+	}
+	start := i + len(marker)
+	if start+4 > len(p) {
+		return nil, false
+	}
+	count := int(binary.BigEndian.Uint32(p[start:]))
+	off := start + 4
+	var names []string
+	for j := 0; j < count; j++ {
+		if off+2 > len(p) {
+			return nil, false
+		}
+		l := int(binary.BigEndian.Uint16(p[off:]))
+		off += 2
+		if off+l > len(p) {
+			return nil, false
+		}
+		names = append(names, string(p[off:off+l]))
+		off += l
+	}
+	if k > len(names) {
+		k = len(names)
+	}
+	out := append([]byte{}, p[:start]...)
+	out = append(out, model.EncodeStrList(names[:k])...)
+	out = append(out, p[off:]...)
+	return out, true
+}
+
 var kinds = []string{"packfile", "pktline", "commit", "table", "block", "blockindex", "profile", "strlist", "strlistbytes", "validate-block", "validate-strlist", "get-table", "get-commit", "get-block", "get-blockindex", "get-tableindex", "get-profile"}
 
 func baseKind(k string) string {
@@ -160,7 +196,13 @@ func TestPropDecode(t *testing.T) {
 			data = genValid(t, kind)
 		}
 		mut, name := mutate(t, data)
-		if rapid.IntRange(0, 3).Draw(t, "twice") == 0 {
+		if (kind == "profile" || kind == "get-profile") && rapid.IntRange(0, 5).Draw(t, "declare") == 0 {
+			// a profile whose header declares only its first k field names (an older or newer
+			// writer) while the columns still use the field numbers of the full list
+			if m, ok := declareFewerFields(data, rapid.IntRange(0, 11).Draw(t, "k")); ok {
+				mut, name = m, "profile-declares-fewer-fields"
+			}
+		} else if rapid.IntRange(0, 3).Draw(t, "twice") == 0 {
 			var n2 string
 			mut, n2 = mutate(t, mut)
 			name += "+" + n2
@@ -241,6 +283,11 @@ func run(c Case) (o evid.Outcome, err error) {
 	if verr != nil {
 		return o, verr
 	}
+	if !rejected {
+		if err := acceptedIsWellFormed(c.Kind, c.Mut, data); err != nil {
+			return o, err
+		}
+	}
 	o.NonTrivial = len(data) >= 8
 	o.Class("kind=%s", c.Kind)
 	o.Class("mut=%s", strings.Split(c.Mut, "+")[0])
@@ -250,6 +297,101 @@ func run(c Case) (o evid.Outcome, err error) {
 		o.Class("accepted")
 	}
 	return o, nil
+}
+
+// acceptedIsWellFormed: what a decoder accepted must be what the bytes say.
+//   - string lists have exactly one encoding: a record Read accepts must re-encode to the bytes it
+//     consumed, and bytes ReadBytes hands out must pass wrgl's own ValidateStrListBytes (its callers
+//     index into them without further checks);
+//   - a strict prefix of a valid commit / table / block encoding (mutation "truncate" alone) is
+//     either rejected or is itself the complete encoding of what was decoded (e.g. a commit cut
+//     exactly after one of its parent lines) - never "the same object minus the missing tail".
+//
+// Other mutations may hit fields the decoders read leniently (time zones etc.), so nothing is
+// demanded of them here beyond what run() already checks.
+func acceptedIsWellFormed(kind, mut string, data []byte) (err error) {
+	defer func() {
+		if p := recover(); p != nil {
+			err = fmt.Errorf("%s accepted the input, and using what it returned panics: %v", kind, p)
+		}
+	}()
+	switch kind {
+	case "strlist":
+		dec := objects.NewStrListDecoder(false)
+		r := bytes.NewReader(data)
+		off := 0
+		for i := 0; i < 100; i++ {
+			n, sl, err := dec.Read(r)
+			if err != nil {
+				return nil
+			}
+			want := model.EncodeStrList(sl)
+			if off+int(n) > len(data) || !bytes.Equal(want, data[off:off+int(n)]) {
+				return fmt.Errorf("StrListDecoder.Read accepted record %d as %q (%d bytes consumed), which is not what the %d input bytes at offset %d encode", i, clipStrs(sl), n, len(data)-off, off)
+			}
+			off += int(n)
+		}
+	case "strlistbytes":
+		dec := objects.NewStrListDecoder(false)
+		r := bytes.NewReader(data)
+		for i := 0; i < 100; i++ {
+			n, b, err := dec.ReadBytes(r)
+			if err != nil {
+				return nil
+			}
+			if m, verr := objects.ValidateStrListBytes(b); verr != nil || m != len(b) || n != len(b) {
+				return fmt.Errorf("StrListDecoder.ReadBytes accepted record %d (%d bytes) that ValidateStrListBytes refuses (%v): a truncated record is handed to callers that index into it", i, n, verr)
+			}
+			// decoding what was handed out must not panic (recovered above)
+			objects.NewStrListDecoder(false).Decode(b)
+		}
+	}
+	if mut != "truncate" {
+		return nil
+	}
+	switch kind {
+	case "commit", "get-commit":
+		n, c, err := objects.ReadCommitFrom(bytes.NewReader(data))
+		if err != nil {
+			return nil
+		}
+		var buf bytes.Buffer
+		c.WriteTo(&buf)
+		if int(n) != len(data) || !bytes.Equal(buf.Bytes(), data) {
+			return fmt.Errorf("a valid commit cut to %d bytes was accepted, but it is not the encoding of the commit that was decoded (%d parents, re-encodes to %d bytes): part of it was silently dropped", len(data), len(c.Parents), buf.Len())
+		}
+	case "table", "get-table":
+		n, tb, err := objects.ReadTableFrom(bytes.NewReader(data))
+		if err != nil {
+			return nil
+		}
+		var buf bytes.Buffer
+		tb.WriteTo(&buf)
+		if int(n) != len(data) || !bytes.Equal(buf.Bytes(), data) {
+			return fmt.Errorf("a valid table object cut to %d bytes was accepted, but it is not the encoding of the table that was decoded (re-encodes to %d bytes)", len(data), buf.Len())
+		}
+	case "block":
+		n, blk, err := objects.ReadBlockFrom(bytes.NewReader(data))
+		if err != nil {
+			return nil
+		}
+		want := model.EncodeBlock(blk)
+		if int(n) != len(data) || !bytes.Equal(want, data) {
+			return fmt.Errorf("a valid block cut to %d bytes was accepted as %d rows, which re-encode to %d bytes", len(data), len(blk), len(want))
+		}
+	}
+	return nil
+}
+
+func clipStrs(sl []string) []string {
+	out := make([]string, 0, len(sl))
+	for _, s := range sl {
+		if len(s) > 20 {
+			s = s[:20] + "..."
+		}
+		out = append(out, s)
+	}
+	return out
 }
 
 // ---- ObjectReceiver.Receive over packfiles of mutated objects ---------------------------------------
@@ -323,6 +465,33 @@ func TestPropReceive(t *testing.T) {
 			objs[i].B64 = base64.StdEncoding.EncodeToString(raws[i])
 		}
 		c := RecvCase{Objs: objs}
+		if rapid.IntRange(0, 9).Draw(t, "multiblock") == 0 {
+			// a table of two blocks whose sizes add up to the declared row count, with correct
+			// block indices, but with a block shape wrgl never produces: a short block that is
+			// not the last one, an empty block, or an overfull one. Readers locate row N at
+			// block N/255, so such a table must not be stored.
+			shape := rapid.SampledFrom([][2]int{{45, 255}, {254, 1}, {1, 255}, {256, 44}, {255, 256}, {255, 45}}).Draw(t, "shape")
+			mk := func(from, n int) [][]string {
+				out := [][]string{}
+				for i := 0; i < n; i++ {
+					out = append(out, []string{fmt.Sprintf("k%05d", from+i), "v", "w"})
+				}
+				return out
+			}
+			rA, rB := mk(0, shape[0]), mk(shape[0], shape[1])
+			bA, bB := model.EncodeBlock(rA), model.EncodeBlock(rB)
+			iA, iB := streams.BlockIndexBytes(rA), streams.BlockIndexBytes(rB)
+			tbytes := model.EncodeTable([]string{"id", "v", "w"}, []uint32{0}, uint32(shape[0]+shape[1]), [][]byte{model.Sum(bA), model.Sum(bB)}, [][]byte{model.Sum(iA), model.Sum(iB)})
+			cm := &objects.Commit{Table: model.Sum(tbytes), AuthorName: "a", AuthorEmail: "b", Message: "m"}
+			var cb bytes.Buffer
+			cm.WriteTo(&cb)
+			c = RecvCase{Objs: []RecvObj{
+				{packfile.ObjectBlock, base64.StdEncoding.EncodeToString(bA)},
+				{packfile.ObjectBlock, base64.StdEncoding.EncodeToString(bB)},
+				{packfile.ObjectTable, base64.StdEncoding.EncodeToString(tbytes)},
+				{packfile.ObjectCommit, base64.StdEncoding.EncodeToString(cb.Bytes())},
+			}}
+		}
 		if rapid.IntRange(0, 3).Draw(t, "rawpack") == 0 {
 			var pf bytes.Buffer
 			w, _ := packfile.NewPackfileWriter(&pf)
